@@ -272,6 +272,54 @@ pub fn run(rep: &mut Rep) {
             super::add_counters(rep, &w);
         }
     }
+    // several inbound QoS 2 exchanges open at once whose identifiers arrive in no particular numeric order, released in
+    // another order, identifiers reused at once
+    rep.note("QoS 2 identifiers in arbitrary order: 2-4 exchanges open at once with identifiers such as (7,2), (65535,1), (300,44,1000), (9,8,7,6); each re-delivered (DUP=1) before its release, released in every rotation, identifiers reused for new messages: every message on its stream exactly once");
+    let idsets: [&[u16]; 6] = [&[7, 2], &[65535, 1], &[300, 44, 1000], &[9, 8, 7, 6], &[2, 7], &[0x0105, 0x0005, 0x0205]];
+    for (si, ids) in idsets.iter().enumerate() {
+        for rot in 0..ids.len() {
+            let id = format!("q2order:{si}:{rot}");
+            bidx += 1;
+            if !rep.take(bidx, &id) {
+                continue;
+            }
+            let mut w = World::boot(WorldCfg { seed: rep.seed, ..Default::default() });
+            let a = w.start(0, Kind::Sub);
+            w.settle_check();
+            w.deliver_ack(a, 1, 0, 0);
+            w.settle_check();
+            w.take_stream(a);
+            let sid = w.sub_id_of(a).unwrap_or(1);
+            for round in 0..2 {
+                for &p in ids.iter() {
+                    w.in_publish(2, p, false, &[sid], false);
+                    w.settle_check();
+                }
+                for &p in ids.iter() {
+                    w.in_publish(2, p, true, &[sid], false);
+                    w.settle_check();
+                }
+                for k in 0..ids.len() {
+                    let p = ids[(k + rot + round) % ids.len()];
+                    w.in_pubrel(p);
+                    w.settle_check();
+                    // the identifier is free again: the broker may use it for a new message at once
+                    w.in_publish(2, p, false, &[sid], false);
+                    w.settle_check();
+                    w.in_pubrel(p);
+                    w.settle_check();
+                }
+            }
+            finish(&mut w);
+            rep.add("evaluations", 1);
+            rep.add("qos2_identifier_order_cases", 1);
+            rep.distinct(&("q2order", si, rot));
+            if super::harvest(rep, &mut w, &id) == 0 {
+                rep.sample(|| format!("{id}: {} items compared", w.counters.stream_items_checked));
+            }
+            super::add_counters(rep, &w);
+        }
+    }
     // rolling subscriptions: streams come and go for a long time (the client's table of registrations is appended to at
     // the back and pruned at the front and in the middle)
     rep.note("rolling subscriptions: K in {1,2,3,4,5,8} live streams for 40 rounds; each round the oldest (or a PRNG-chosen) stream is dropped, the broker sends a late PUBLISH for it, the application subscribes again, and one message per live stream (plus one carrying two identifiers) must reach exactly its stream");
